@@ -10,6 +10,7 @@ use crate::rng::Rng;
 use crate::Args;
 use bytes::Bytes;
 use redis_sim::redis::{Command, CommandExecutor, RespValue, RespValueZeroCopy, SDS};
+use redis_sim::simulator::VirtualTime;
 use serde_json::json;
 use std::collections::{BTreeMap, BTreeSet};
 use std::panic::{catch_unwind, AssertUnwindSafe};
@@ -295,16 +296,38 @@ fn eval(ex: &mut CommandExecutor, script: &str, argv: &Frame) -> Result<RespValu
     quiet_panics(|| ex.execute(&cmd))
 }
 
-/// a small keyspace with one key of every type (both twins start from it)
+/// virtual time at which the twins are primed and the command under test runs
+const T0_MS: u64 = 1_000_000;
+/// the clock is advanced to these instants after the command; the keyspace (with remaining TTLs) is
+/// compared at each: past the short deadlines (primed 50 s, EX/PX arguments of the generators), then
+/// past every primed deadline
+const LATER_MS: [u64; 3] = [T0_MS + 8_000, T0_MS + 60_000, T0_MS + 2_000_000];
+
+/// the primed keyspace, described for replay files
+const PRIMED: &str = "t=1000000ms; TTL-carrying: s='10'(100s) l=[a,b,c](200s) st={a,b}(50s) h={f:1,g:x}(300s) z={a:1,b:2,c:3}(400s) n='7'(5s); without TTL: t='text' l2=[x,y] st2={a,c} h2={f:5} z2={a:1,m:9} c='41'";
+
+/// a keyspace with keys of every type, with and without a TTL, at a non-zero virtual time
+/// (both twins start from it)
 fn primed() -> CommandExecutor {
     let mut e = CommandExecutor::new();
+    e.set_time(VirtualTime::from_millis(T0_MS));
     let sd = |s: &str| SDS::from_str(s);
+    let zadd = |k: &str, ps: Vec<(f64, SDS)>| Command::ZAdd { key: k.into(), pairs: ps, nx: false, xx: false, gt: false, lt: false, ch: false };
     e.execute(&Command::set("s".into(), sd("10")));
     e.execute(&Command::set("t".into(), sd("text")));
+    e.execute(&Command::set("n".into(), sd("7")));
+    e.execute(&Command::set("c".into(), sd("41")));
     e.execute(&Command::RPush("l".into(), vec![sd("a"), sd("b"), sd("c")]));
+    e.execute(&Command::RPush("l2".into(), vec![sd("x"), sd("y")]));
     e.execute(&Command::SAdd("st".into(), vec![sd("a"), sd("b")]));
+    e.execute(&Command::SAdd("st2".into(), vec![sd("a"), sd("c")]));
     e.execute(&Command::HSet("h".into(), vec![(sd("f"), sd("1")), (sd("g"), sd("x"))]));
-    e.execute(&Command::ZAdd { key: "z".into(), pairs: vec![(1.0, sd("a")), (2.0, sd("b")), (3.0, sd("c"))], nx: false, xx: false, gt: false, lt: false, ch: false });
+    e.execute(&Command::HSet("h2".into(), vec![(sd("f"), sd("5"))]));
+    e.execute(&zadd("z", vec![(1.0, sd("a")), (2.0, sd("b")), (3.0, sd("c"))]));
+    e.execute(&zadd("z2", vec![(1.0, sd("a")), (9.0, sd("m"))]));
+    for (k, secs) in [("s", 100), ("l", 200), ("st", 50), ("h", 300), ("z", 400), ("n", 5)] {
+        e.execute(&Command::expire(k.into(), secs));
+    }
     e
 }
 
@@ -368,6 +391,16 @@ fn dump(ex: &mut CommandExecutor) -> String {
         out.push(format!("{}={}:{}:ttl{}", hex(k.as_bytes()), ty, show_resp(&r), show_resp(&ttl)));
     }
     out.join(";")
+}
+
+/// the keyspace (values and remaining TTLs) now and after the clock has passed the earlier deadlines
+fn dumps(ex: &mut CommandExecutor) -> Vec<String> {
+    let mut v = vec![format!("@{}ms {}", ex.get_current_time().as_millis(), dump(ex))];
+    for t in LATER_MS {
+        ex.set_time(VirtualTime::from_millis(t));
+        v.push(format!("@{}ms {}", t, dump(ex)));
+    }
+    v
 }
 
 // ---------------------------------------------------------------------------------------------
@@ -465,7 +498,7 @@ const NUMS: &[&str] = &[
     "2.2250738585072014e-308", "2.2250738585072011e-308", "１", "1\u{0}",
 ];
 
-const KEYS: &[&[u8]] = &[b"s", b"t", b"l", b"st", b"h", b"z", b"missing", b"k", b"", b"\xff\xfe", b"\xc3\x28", b"\xe2\x82\xac", b"key with space", b"\xf0\x9f\x98\x80", b"\xed\xa0\x80", b"\xe2\x82"];
+const KEYS: &[&[u8]] = &[b"s", b"t", b"l", b"st", b"h", b"z", b"missing", b"k", b"n", b"c", b"l2", b"st2", b"h2", b"z2", b"", b"\xff\xfe", b"\xc3\x28", b"\xe2\x82\xac", b"key with space", b"\xf0\x9f\x98\x80", b"\xed\xa0\x80", b"\xe2\x82"];
 const VALS: &[&[u8]] = &[b"v", b"10", b"a", b"b", b"f", b"g", b"", b"\x00\xff\r\n", b"nx", b"NX", b"EX", b"\xe6\x97\xa5\xe6\x9c\xac", b"\xc5\xbf", b"\xef\xac\x81", b"*", b"a*", b"(1", b"-inf", b"+inf"];
 
 fn pick_bytes(rng: &mut Rng, pool: &[&[u8]]) -> Vec<u8> {
@@ -483,7 +516,7 @@ fn slot(rng: &mut Rng, c: char) -> Vec<u8> {
     }
     match c {
         'K' => {
-            if rng.chance(4, 5) { pick_bytes(rng, &KEYS[..8]) } else { pick_bytes(rng, KEYS) }
+            if rng.chance(4, 5) { pick_bytes(rng, &KEYS[..14]) } else { pick_bytes(rng, KEYS) }
         }
         'V' | 'M' | 'S' => pick_bytes(rng, VALS),
         'I' | 'U' | 'F' => {
@@ -729,15 +762,16 @@ impl Ctx {
                     let rl = normalise_reply(c, rl.clone());
                     self.out.op(format!("RT {}", show_resp(rd)), show_resp(&rl));
                     let same_reply = show_resp(rd) == show_resp(&rl) || (matches!(rd, RespValue::Array(None)) && matches!(rl, RespValue::BulkString(None)));
-                    let (da, dl) = (dump(&mut ex_direct), dump(&mut ex_lua));
+                    let (da, dl) = (dumps(&mut ex_direct), dumps(&mut ex_lua));
                     if !same_reply {
                         let class = if contains_nil(rd) { "C16:lua:array-with-nil-truncated".to_string() } else { format!("C16:lua:reply-differs:{}", name) };
                         self.out.violation(&class, "the reply of a command run through redis.pcall differs from the reply of the same command sent directly (after the documented conversion)",
-                            replay("lua-reply", json!({"direct_reply": show_resp(rd), "lua_reply": show_resp(&rl)})));
+                            replay("lua-reply", json!({"primed_state": PRIMED, "direct_reply": show_resp(rd), "lua_reply": show_resp(&rl)})));
                     }
                     if da != dl {
                         self.out.violation(&format!("C16:lua:effect-differs:{}", name), "the keyspace after a command run through redis.pcall differs from the keyspace after the same command sent directly",
-                            replay("lua-effect", json!({"direct_dump": da, "lua_dump": dl})));
+                            replay("lua-effect", json!({"primed_state": PRIMED, "direct_dumps": da, "lua_dumps": dl,
+                                "first_difference": da.iter().zip(dl.iter()).find(|(x, y)| x != y).map(|(x, y)| json!({"direct": x, "lua": y}))})));
                     }
                     self.out.count("effect-compared");
                 }
@@ -1118,6 +1152,37 @@ fn nonbulk(cx: &mut Ctx, rng: &mut Rng) {
     }
 }
 
+/// every command x option combination the translator accepts, on every primed key (with and
+/// without a TTL, every type, and a missing key): the effect on values AND remaining TTLs must be
+/// the one of the direct path
+fn effect_sweep(cx: &mut Ctx) {
+    const TEMPLATES: &[&str] = &[
+        "GET $K", "SET $K v2", "SET $K v2 NX", "SET $K v2 XX", "SET $K v2 GET", "SET $K v2 EX 7", "SET $K v2 PX 7000", "SET $K v2 EX 70",
+        "SET $K v2 PX 1500 GET", "SET $K v2 EX 7 NX", "SET $K v2 XX EX 70", "SET $K v2 XX GET", "SET $K v2 NX GET", "SET $K v2 EX 7 PX 70000",
+        "SET $K v2 EX 0", "SET $K v2 EX -5", "SET $K 12", "set $K v2 ex 7 xx get",
+        "DEL $K", "DEL $K $J", "EXISTS $K", "EXISTS $K $J", "TYPE $K", "TTL $K",
+        "INCR $K", "DECR $K", "INCRBY $K 5", "INCRBY $K -50", "INCRBY $K 9223372036854775807",
+        "EXPIRE $K 7", "EXPIRE $K 70", "EXPIRE $K 1000", "EXPIRE $K 0", "EXPIRE $K -1",
+        "HGET $K f", "HSET $K f 2", "HSET $K new 1", "HSET $K new 1 f 9", "HDEL $K f", "HDEL $K f g", "HDEL $K nofield", "HINCRBY $K f 3", "HINCRBY $K new 3", "HGETALL $K",
+        "LPUSH $K x", "RPUSH $K x y", "LPOP $K", "RPOP $K", "LLEN $K", "LRANGE $K 0 -1", "LRANGE $K 1 1",
+        "RPOPLPUSH $K $J", "RPOPLPUSH $K $K", "LMOVE $K $J LEFT RIGHT", "LMOVE $K $J right left", "LMOVE $K $K LEFT LEFT",
+        "SADD $K a c", "SADD $K zz", "SREM $K a", "SREM $K a b", "SREM $K a c", "SMEMBERS $K", "SISMEMBER $K a",
+        "ZADD $K 5 a", "ZADD $K 5 new", "ZADD $K NX 5 a", "ZADD $K XX 5 new", "ZADD $K XX CH 5 a", "ZADD $K GT 0 a", "ZADD $K LT 0 a", "ZADD $K CH 1 a 7 q",
+        "ZREM $K a", "ZREM $K a b c", "ZREM $K a m", "ZRANGE $K 0 -1", "ZSCORE $K a", "ZCARD $K", "ZCOUNT $K 0 10", "ZCOUNT $K (1 +inf",
+        "ZRANGEBYSCORE $K 0 10", "ZRANGEBYSCORE $K -inf +inf WITHSCORES", "ZRANGEBYSCORE $K 0 10 LIMIT 1 1", "ZRANGEBYSCORE $K 0 10 WITHSCORES LIMIT 0 5",
+    ];
+    const ALL: &[&str] = &["s", "t", "n", "c", "l", "l2", "st", "st2", "h", "h2", "z", "z2", "missing"];
+    for tmpl in TEMPLATES {
+        for k in ALL {
+            let js: &[&str] = if tmpl.contains("$J") { &["l", "l2", "s", "t", "missing2", "z"] } else { &[""] };
+            for j in js {
+                let f: Frame = tmpl.split(' ').map(|w| match w { "$K" => k.as_bytes().to_vec(), "$J" => j.as_bytes().to_vec(), x => x.as_bytes().to_vec() }).collect();
+                cx.check_frame(&f, "effect-sweep");
+            }
+        }
+    }
+}
+
 fn fr(parts: &[&[u8]]) -> Frame {
     parts.iter().map(|p| p.to_vec()).collect()
 }
@@ -1225,6 +1290,7 @@ pub fn run(a: &Args) {
     unicode_sweep(&mut cx);
     float_sweep(&mut cx, &mut rng, (a.n / 4).max(200));
     luaconv(&mut cx, &mut rng, (a.n / 10).max(100));
+    effect_sweep(&mut cx);
     systematic(&mut cx, &mut rng);
     nonbulk(&mut cx, &mut rng);
     let mut done = 0u64;
